@@ -23,7 +23,15 @@ pub enum Container {
     Quads { kind: Flat, syms: Vec<u8> },
     /// a mutable bit vector grown by a history (`with_zeros(zeros)` or `new()` + `extend_with_zeros(zeros)`, then
     /// `tail` pushed bit by bit or appended), iterated as `BitVectorMut` or frozen into a `BitVector`
-    BitsGrown { frozen: bool, zeros: usize, via_extend: bool, tail: String },
+    BitsGrown {
+        frozen: bool,
+        zeros: usize,
+        via_extend: bool,
+        tail: String,
+        /// `set_bits(index, len, bits)` applied after the growth (inside the vector, often straddling a word or line)
+        #[serde(default)]
+        patches: Vec<(usize, usize, u64)>,
+    },
     /// `Default::default()` of a tree type (an empty sequence that never went through a constructor)
     TreeDefault { alias: Alias, ty: Ty },
     /// `Default::default()` of a bit / quad structure
@@ -162,7 +170,22 @@ pub fn gen_case(run_seed: u64, tier: Tier) -> IterCase {
             if frozen {
                 kinds.push(IterKind::RefIntoIter);
             }
-            (Container::BitsGrown { frozen, zeros, via_extend: rng.bool(), tail }, *rng.pick(&kinds), n)
+            let mut patches = vec![];
+            if n >= 70 {
+                for _ in 0..rng.below(4) {
+                    let len = rng.urange(1, 64);
+                    let index = match rng.below(3) {
+                        0 => (512 * rng.urange(1, n / 512 + 1)).saturating_sub(rng.urange(1, len)), // straddles a line
+                        1 => (64 * rng.urange(1, n / 64 + 1)).saturating_sub(rng.urange(1, len)),   // straddles a word
+                        _ => rng.usize_below(n),
+                    };
+                    if index + len <= n {
+                        let bits = if len == 64 { rng.next_u64() } else { rng.next_u64() & ((1u64 << len) - 1) };
+                        patches.push((index, len, bits));
+                    }
+                }
+            }
+            (Container::BitsGrown { frozen, zeros, via_extend: rng.bool(), tail, patches }, *rng.pick(&kinds), n)
         }
         20..=31 => {
             let kind = *rng.pick(&[Flat::BitVector, Flat::BitVectorMut, Flat::DArray, Flat::DArray0]);
@@ -362,10 +385,17 @@ pub fn exec(case: &IterCase) -> RunOut {
             let t = build_quads(*kind, syms);
             (t, syms.iter().map(|&s| (s & 3) as u128).collect())
         }
-        Container::BitsGrown { frozen, zeros, via_extend, tail } => {
+        Container::BitsGrown { frozen, zeros, via_extend, tail, patches } => {
             let mut b: Vec<bool> = vec![false; *zeros];
             b.extend(tail.chars().map(|c| c == '1'));
-            let t = crate::ds::build_bits_grown(*frozen, *zeros, *via_extend, tail);
+            for &(index, len, bits) in patches {
+                if index + len <= b.len() && len <= 64 && len >= 1 {
+                    for k in 0..len {
+                        b[index + k] = bits >> k & 1 == 1;
+                    }
+                }
+            }
+            let t = crate::ds::build_bits_grown(*frozen, *zeros, *via_extend, tail, patches);
             let all: Vec<u128> = match case.iter {
                 IterKind::Iter | IterKind::RefIntoIter | IterKind::IntoIter => b.iter().map(|&x| x as u128).collect(),
                 IterKind::Ones => (0..b.len()).filter(|&i| b[i]).map(|i| i as u128).collect(),
